@@ -104,5 +104,6 @@ int main(int argc, char** argv) {
         }
     }
     printf(bad ? "REPRODUCED: the real interpreter deviates from the rules on this input\n" : "not reproduced: the real interpreter follows the rules on this input\n");
+    if (!bad && num("reduced")) { printf("(the verifier's input was reduced to allocatable sizes; the reduced input does not show the failure: cannot rebuild)\n"); return 3; }
     return bad ? 1 : 0;
 }
